@@ -17,9 +17,12 @@ let find_handler prop = reg prop "Find" (fun ver args obs ->
   let v = (match we with Zneg _ -> v | _ -> with_end v we) in
   let (lo, w) = text_of d v (nat_of_int (max 330 (List.length raw + 12))) in
   (* rerun variants (9, 10) answer like 7, 8; v1/v2 have no push iterators: 7..10 are emulated by pulls *)
-  let fn' = (match fn with 9 -> 7 | 10 -> 8 | x -> x) in
+  (* 11, 12: the complete forward / backward listing obtained by several goroutines at once from one shared iterator
+     value (v3) or one shared view (v1/v2): the sequential answer *)
+  let n = (if fn = 11 || fn = 12 then z_of_int (-1) else n) in
+  let fn' = (match fn with 9 | 11 -> 7 | 10 | 12 -> 8 | x -> x) in
   let finite_type = (match v with FN (_, _) | MWS (_, _) -> true | _ -> false) in
-  let need_finite = List.mem fn [2; 3; 4; 6; 8; 10] in
+  let need_finite = List.mem fn [2; 3; 4; 6; 8; 10; 11; 12] in
   if ver = "v3" && need_finite && not finite_type then ok_v ["NOTFINITE"] []
   else
   match find_model (z_of_int fn') n pat lo w with
@@ -34,7 +37,8 @@ let find_handler prop = reg prop "Find" (fun ver args obs ->
     let extra = List.filteri (fun i _ -> i >= nobs) obs in
     let spec = if obs_res <> expect_t then Some "reported positions are not the occurrences of the pattern (naive specification)" else None in
     let tags = (if List.length res > 1 then ["multi"] else []) @ (if pat = [] then ["emptypat"] else [])
-               @ (if List.mem fn [3; 4; 6; 8; 10] then ["backward"] else []) @ (if fn >= 9 then ["rerun"] else []) in
+               @ (if List.mem fn [3; 4; 6; 8; 10; 12] then ["backward"] else []) @ (if fn = 9 || fn = 10 then ["rerun"] else [])
+               @ (if fn >= 11 then ["shared-concurrent"] else []) in
     (* C15: digits consulted: no further than the later of the sequence's start and the end of the last reported
        match, plus the bounded read-ahead; v3 with n <= 0 consults nothing beyond the constructor's first-digit probe *)
     let spec =
@@ -57,3 +61,4 @@ let find_handler prop = reg prop "Find" (fun ver args obs ->
 
 let () = find_handler "C09"
 let () = find_handler "C15"
+let () = find_handler "C05"
